@@ -37,6 +37,8 @@ def candidates(cls, g, j):
         (), (n0,), (e0,), (new,), ([n0, new],), ([e0],), (pair,), ([pair, pair2],), ({E(9): pair},),
         (e0, n0), (e0, new), (E(9), new), (n0, n1, e0, e1), (e0, e1), (pair, E(9)),
         ([(new, {"color": 1})],), ([[n0, new, 2]],),
+        # degenerate arguments: empty collections of every kind (an empty edge is an edge; an empty bunch is a no-op)
+        ([],), ((),), (set(),), ({},), (frozenset(),), ("",), (([], []),), ([[]],), ([([], [])],),
     ]
     # every (n1, n2, e1, e2) over the first nodes / edges: some are valid degree preserving swaps
     ns = [N(x) for x in j["nodes"][:4]]
@@ -47,6 +49,11 @@ def candidates(cls, g, j):
     if cls == "DH":
         c += [(e0, new, "in"), (e0, new, "out"), (e0, n0, "in"), (e0, n0, "out"), (e0, n1, "in"), (e0, n1, "out")]
     return c
+
+
+def _members(net, e):
+    m = net._edge[e]
+    return (frozenset(m["in"]), frozenset(m["out"])) if isinstance(m, dict) else frozenset(m)
 
 
 def _call(obj, name, args):
@@ -65,6 +72,35 @@ def public_methods(klass):
             continue
         out.append(name)
     return out
+
+
+def copy_probe(tag, cls, g, make):
+    """copy of a frozen network: equal, unfrozen, editable"""
+    klass, proj = nets.CLASSES[cls]
+    recs = []
+    fz = make()
+    fz.freeze()
+    pre, _ = proj(fz, g)
+    cp = fz.copy()
+    post, _ = proj(cp, g)
+    try:
+        cp.add_node(g.node(9))
+        editable = g.node(9) in cp
+        # editable with the documented effect: automatic additions add, and leave what was there alone
+        before = {e: _members(cp, e) for e in cp.edges}
+        extra = ([g.node(9)], [g.node(8)]) if cls == "DH" else [g.node(9), g.node(8)]
+        for _ in range(len(before) + 2):
+            if cls == "SC":
+                cp.add_simplex([g.node(9), g.node(8)] if _ == 0 else [g.node(9), g.node(10 + _)])
+            else:
+                cp.add_edge(extra)
+        after = {e: _members(cp, e) for e in cp.edges}
+        editable = editable and all(after.get(e) == m for e, m in before.items()) and len(after) >= len(before) + len(before) + 2
+    except Exception:  # noqa: BLE001
+        editable = False
+    recs.append({"rid": f"{tag}.{cls}.copy", "what": f"{cls}.copy() of a frozen network", "kind": "copy", "name": "copy",
+                 "twinChanged": bool(editable), "res": "ok", "pre": pre, "post": post})
+    return recs
 
 
 def probe_network(tag, cls, g, make):
@@ -135,19 +171,7 @@ def probe_network(tag, cls, g, make):
         post, _ = proj(fz, g)
         recs.append({"rid": f"{tag}.{cls}.{fname}", "what": f"xgi.{fname}({cls}, in_place=True)", "kind": "probe",
                      "name": fname, "twinChanged": struct(jt) != struct(j0), "res": res, "pre": pre, "post": post})
-    # copy of a frozen network: equal, unfrozen, editable
-    fz = make()
-    fz.freeze()
-    pre, _ = proj(fz, g)
-    cp = fz.copy()
-    post, _ = proj(cp, g)
-    try:
-        cp.add_node(g.node(9))
-        editable = g.node(9) in cp
-    except Exception:  # noqa: BLE001
-        editable = False
-    recs.append({"rid": f"{tag}.{cls}.copy", "what": f"{cls}.copy() of a frozen network", "kind": "copy", "name": "copy",
-                 "twinChanged": bool(editable), "res": "ok", "pre": pre, "post": post})
+    recs += copy_probe(tag, cls, g, make)
     # editing the copy of a frozen network must not reach the frozen original (shared internal sets)
     fz = make()
     fz.freeze()
@@ -398,6 +422,21 @@ def run(tier, seed_):
                 recs += r
                 uncovered += u
                 recs += library_probes(f"v{variant}f{fi}", cls, g, make_factory(cls, g, variant))
+        # the copy of a frozen network under edge ids that are integer-like without being python ints
+        for fi, fam in enumerate([("shift", "intfloat"), ("npint", "npint")]):
+            g = Gamma(*fam)
+            recs += copy_probe(f"cpf{fi}", cls, g, make_factory(cls, g, 2))
+
+            def last_explicit(g=g, cls=cls):
+                # the largest id was given explicitly (not a python int under these families)
+                H = make_factory(cls, g, 1)()
+                m = [g.node(3), g.node(2)]
+                if cls == "SC":
+                    H.add_simplex(m, idx=g.edge(15))
+                else:
+                    H.add_edge((m[:1], m[1:]) if cls == "DH" else m, idx=g.edge(15))
+                return H
+            recs += copy_probe(f"cpx{fi}", cls, g, last_explicit)
     log(f"[C18] surface probing: {len(recs)} probe records ({t():.0f}s)")
     # freeze protects the structure (attribute setters stay allowed): probes compare structure + flag
     for r in recs:
